@@ -113,7 +113,7 @@ Step choose_step(HState const &h, Rng &rng, HOpts const &o){
             w.push_back({Step::update, 1.5});
         if (o.construction && outs > 0 && (fam != fam_global || nested_global) && loaded + needed < o.max_points
             && !g.isSetConformalTransformASIN()) // the Newton inverse of the conformal map is less accurate than the 1e-12 node matching of loadConstructedPoints (DESIGN.md section 7)
-            w.push_back({Step::begin_c, 1.2});
+            w.push_back({Step::begin_c, 1.2 * o.construction_bias});
         if (!g.getLevelLimits().empty()) w.push_back({Step::clear_limits, 0.2});
     }
     if (w.empty()){ s.kind = Step::none; return s; }
